@@ -4,3 +4,4 @@ import MiniconfVerif.Props.C10
 #print axioms MiniconfVerif.C10.dump_entry_points
 #print axioms MiniconfVerif.C10.api_dump_busy
 #print axioms MiniconfVerif.C10.source_iter_dump_is_model
+#print axioms MiniconfVerif.C10.source_dump_api_is_model
